@@ -6,6 +6,7 @@ SU = r"^indexer::segment_updater::" + I + "::"
 DIR = r"Directory>::"          # any `<X as Directory>::method` call (dyn or concrete)
 
 EV_STORAGE = {
+    "create_file": {"call": r"index::segment::Segment::open_write$|" + DIR + r"open_write$"},
     "sync": {"call": DIR + r"sync_directory$"},
     "meta_write": {"call": DIR + r"atomic_write$", "arg": r"META_FILEPATH"},
     "ret": {"ret": True},
@@ -35,11 +36,15 @@ M("C01", "M01-1-commit-task", dict(
     root=SU + r"schedule_commit::\{closure#0\}$", depth=3, unroll=2,
     inline=[r"SegmentUpdater::save_metas$", r"segment_updater::save_metas$"],
     native=[("between", "atomic_write:meta.json", "sync_directory"), ("fault", "sync_directory", ["atomic_write:meta.json"])],
-    events=ev(purge={"call": r"SegmentUpdater::purge_deletes$"},
+    events=ev(purge={"call": r"SegmentUpdater::purge_deletes$", "even_inlined": True},
               mgr_commit={"call": r"SegmentManager::commit$"},
               save={"call": r"SegmentUpdater::save_metas$", "even_inlined": True},
               gc={"call": r"segment_updater::garbage_collect_files$"}),
+    absent_ok_events=["create_file"],
     checks=[("precedes_ok", "sync", "meta_write"),
+            # crash right after the meta.json replace: every file created earlier on the path (new
+            # .del files written by purge_deletes -> advance_deletes) has had a directory sync since
+            ("precedes_ok", "sync", "meta_write", ["create_file"]),
             ("precedes_ok", "purge", "meta_write"),
             ("precedes_ok", "mgr_commit", "meta_write"),
             ("precedes_ok", "save", "gc"),
@@ -55,10 +60,12 @@ M("C01", "M01-3-end_merge", dict(
     inline=[r"SegmentUpdater::save_metas$", r"segment_updater::save_metas$"],
     native=[("between", "atomic_write:meta.json", "sync_directory"), ("fault", "sync_directory", ["atomic_write:meta.json"])],
     
-    events=ev(adv={"call": r"index_writer::advance_deletes$"},
+    events=ev(adv={"call": r"index_writer::advance_deletes$", "even_inlined": True},
               mgr_end={"call": r"SegmentManager::end_merge$"},
               gc={"call": r"segment_updater::garbage_collect_files$"}),
+    absent_ok_events=["create_file"],
     checks=[("precedes_ok", "sync", "meta_write"),
+            ("precedes_ok", "sync", "meta_write", ["create_file"]),
             ("precedes_ok", "mgr_end", "meta_write"),
             ("precedes_ok", "mgr_end", "gc"),
             ("not_after_fail", "adv", "mgr_end"),
